@@ -224,7 +224,7 @@ def ob_averager(w, P):
     for v in pre:
         avA.add(v)
     opA, opB = P['a'], P['b']
-    xa, xb = 8.0, 32.0
+    xa, xb = P.get('xa', 8.0), P.get('xb', 32.0)
     res = {}
 
     def do(av, op, x):
@@ -252,6 +252,7 @@ def ob_averager(w, P):
 
         def run_b():
             res['B'] = do(avB, opB, xb)
+        w.preconnect(cA if P.get('same_object') else cB, (100, 2) if P.get('same_object') else (200, 1))
         w.start_events()
         il = w.interleave(run_a, run_b, w.int('at', 0, 16), w.int('at2', 0, 16), id_a=(100, 1), id_b=(100, 2) if P.get('same_object') else (200, 1))
         w.stop_events()
@@ -468,6 +469,7 @@ def ob_lock_il(w, P):
             lk.release()
             done[name] = True
         return run
+    w.preconnect(cB, (100, 2) if same else (200, 1))
     w.start_events()
     il = w.interleave(body('A', lkA), body('B', lkB), w.int('at', 0, P.get('max_events', 14)), w.int('at2', 0, P.get('max_events', 14)),
                       id_a=(100, 1), id_b=(100, 2) if same else (200, 1))
@@ -619,6 +621,9 @@ def jobs(tier):
         for pre in ([], [2.0]):
             out.append(dict(id='averager.%s.%s.pre%d' % (a, b, len(pre)), func='ob_averager', params=dict(a=a, b=b, pre=pre), tags=['C20', 'C05'], functions=AF, weight=4, twin=False,
                             must_reach=['interleaved']))
+    for a, b, pre, xa, xb in [('add', 'get', [-8.0], 8.0, 0.0), ('add', 'pop', [], 0.0, 0.0), ('add', 'add', [2.0], -1.0, -1.0)]:
+        out.append(dict(id='averager.zero_sum.%s.%s.pre%d' % (a, b, len(pre)), func='ob_averager', params=dict(a=a, b=b, pre=pre, xa=xa, xb=xb), tags=['C20', 'C05'], functions=AF, weight=4, twin=False,
+                        must_reach=['interleaved']))
     for a, b in [('add', 'add'), ('add', 'pop'), ('pop', 'add')]:
         for same in (True, False):
             out.append(dict(id='averager.il.%s.%s.%s' % (a, b, 'thread' if same else 'process'), func='ob_averager', params=dict(a=a, b=b, pre=[2.0], il=True, same_object=same), tags=['C20', 'C05'],
